@@ -164,7 +164,7 @@ def run(chk, replay=None):
     # code -> spec: further random requests judged by TLC
     rng = random.Random(chk.seed)
     extra = []
-    for _ in range(60 if chk.quick else 20000):
+    for _ in range(60 if chk.quick else 60000):
         k = rng.choice(["prin_sa", "opcode_ctor", "xcopy_seg_type", "xcopy_cscd_type"])
         v = rng.randint(0, 255) if k != "prin_sa" else rng.choice([rng.randint(0, 31), rng.randint(32, 2 ** 20)])
         if k == "prin_sa" and v > 65536:
